@@ -222,6 +222,10 @@ let handle (req : sexp) : sexp =
   | L [A "combine_factorizations"; rows; weights; cart] ->
     let (comb, uniq) = combine_factorizations (List.map zlist (lst rows)) (zlist weights) (nat_of cart) in
     L [zl comb; L (List.map zl uniq)]
+  | L [A "combine_inplace"; rows; weights; cart] ->
+    let rs = List.map zlist (lst rows) in
+    let (comb, uniq) = combine_inplace rs (zlist weights) (nat_of cart) in
+    L [zl comb; L (List.map zl uniq); L (List.map zl (combine_inplace_matrix rs (zlist weights) (nat_of cart)))]
   | L [A "monotonic_factorization"; arr] ->
     let xs = List.map (fun x -> match atom x with "_" -> None | t -> Some (z_of_string t)) (lst arr) in
     let ((c, codes), labels) = monotonic_factorization xs in
